@@ -433,6 +433,28 @@ func c01Cases(a *ChildArgs) []c01Case {
 			}
 		}
 		// deep repetition at token level (no tokenizer cost): sizes beyond what text inputs reach
+		// every corpus file as a converted stream without its EOF, cut after every token (and with one zero-Type
+		// token appended): statement kinds the fixed list above does not contain (table options, MATCH ... AGAINST,
+		// dialect statements) reach the low-level parser this way
+		for ci, cf := range CorpusFiles() {
+			ci := ci
+			full := convertedTokens(cf.SQL)
+			if full == nil {
+				continue
+			}
+			noEOF := full
+			if n := len(full); n > 0 && full[n-1].Type == models.TokenTypeEOF {
+				noEOF = full[:n-1]
+			}
+			step := 1
+			if quick && len(noEOF) > 120 {
+				step = len(noEOF)/120 + 1
+			}
+			for k := 1; k <= len(noEOF); k += step {
+				k := k
+				cs = append(cs, c01Case{ID: fmt.Sprintf("tokens/corpus-no-eof-prefix/%d/k=%d", ci, k), Toks: func() []token.Token { return append([]token.Token(nil), noEOF[:k]...) }})
+			}
+		}
 		for _, n := range []int{1000, 30000, 150000, 900000} {
 			n := n
 			if quick && n > 150000 {
